@@ -43,10 +43,12 @@ fn fwd(op: &Op, _ctx: &dyn Context, operands: &mut dyn CoordinateSet) -> usize {
             let (lon, lat) = operands.xy(i);
             let (sin_lon, cos_lon) = (lon - lon_0).sin_cos();
 
-            let q = ancillary::qs(lat.sin(), e);
-            // (at the pole itself, rounding may leave us with a tiny negative number)
+            // Evaluate q at the latitude mirrored into the northern hemisphere
+            // for the south polar aspect: qs(-1) is not bit for bit -qs(1) = -qp,
+            // and the square root turns that last bit into decimetres at the pole
+            let q = ancillary::qs(-sign * lat.sin(), e);
             // (clamp() lets a NaN input remain a NaN, unlike max())
-            let rho = a * (qp + sign * q).clamp(0., f64::INFINITY).sqrt();
+            let rho = a * (qp - q).clamp(0., f64::INFINITY).sqrt();
 
             let easting = x_0 + rho * sin_lon;
             let northing = y_0 + sign * rho * cos_lon;
